@@ -11,16 +11,19 @@
 (* domain a value must be returned and be accurate and monotone.           *)
 (***************************************************************************)
 EXTENDS Integers, Sequences, TLC, Json, IOUtils
-VARIABLE l
+VARIABLES l, bad       \* next line; lines whose event is not allowed (every call is judged on its own)
 Rec == ndJsonDeserialize(IOEnv.TRACE)
-Init == l = 1
+Init == l = 1 /\ bad = <<>>
 GammaOK(e) == /\ e.cls \in {"Err", "OkPos"}
               /\ (e.indomain => (e.cls = "OkPos" /\ e.acc /\ e.mono))
-Step == /\ l <= Len(Rec) /\ Rec[l].ev = "Gamma" /\ GammaOK(Rec[l]) /\ l' = l + 1
-TSpec == Init /\ [][Step]_l
+Step == /\ l <= Len(Rec) /\ Rec[l].ev = "Gamma"
+        /\ bad' = IF GammaOK(Rec[l]) THEN bad ELSE Append(bad, l)
+        /\ l' = l + 1
+TSpec == Init /\ [][Step]_<<l, bad>>
 Track == TRUE
-TraceAccepted ==
-   IF TLCGet("stats").diameter - 1 = Len(Rec) THEN TRUE
-   ELSE /\ PrintT(<<"REJECT", TLCGet("stats").diameter, ToJson(Rec[TLCGet("stats").diameter])>>)
-        /\ FALSE
+\* the verdict is taken in the last state: every line consumed and none rejected; rejected lines are printed
+Done == l = Len(Rec) + 1
+Verdict == Done => (IF bad = <<>> THEN TRUE
+                    ELSE PrintT(<<"REJECTED", ToJson([lines |-> SubSeq(bad, 1, IF Len(bad) > 400 THEN 400 ELSE Len(bad)), total |-> Len(bad)])>>) /\ FALSE)
+TraceAccepted == TLCGet("stats").diameter - 1 = Len(Rec)
 =============================================================================
